@@ -28,6 +28,7 @@ type spec struct {
 }
 
 type result struct {
+	unreadable string
 	spec  spec
 	cases []*node
 	w     *world
@@ -43,10 +44,21 @@ func tmpBase() string {
 }
 
 func runHistory(sp spec, tmp string) (res *result, err error) {
+	var w *world
+	var h *hist
 	defer func() {
 		if r := recover(); r != nil {
-			if os.Getenv("VERIF_DKG_DEBUG") != "" && res == nil {
-				fmt.Fprintf(os.Stderr, "history %d (%s) panic: %v\n", sp.id, sp.kind, r)
+			if se, ok := r.(storeUnreadable); ok && w != nil && h != nil {
+				// the real store can no longer decode a record it wrote: keep what was observed so
+				// far and report it (the monitor turns it into a failure)
+				res = &result{spec: sp, w: w, notes: h.notes, cut: true, unreadable: se.Error()}
+				for _, n := range w.nodes {
+					if len(n.steps) > 0 {
+						res.cases = append(res.cases, n)
+					}
+				}
+				err = nil
+				return
 			}
 			err = fmt.Errorf("history %d (%s): engine panic: %v", sp.id, sp.kind, r)
 		}
@@ -56,7 +68,7 @@ func runHistory(sp spec, tmp string) (res *result, err error) {
 	if kyber {
 		grace = 500 * time.Millisecond
 	}
-	w, err := newWorld(nNodes, 1, grace, phase, tmp, sp.id)
+	w, err = newWorld(nNodes, 1, grace, phase, tmp, sp.id)
 	if err != nil {
 		return nil, err
 	}
@@ -64,7 +76,7 @@ func runHistory(sp spec, tmp string) (res *result, err error) {
 		n.init0 = mustSnapshot(n)
 	}
 	w.routeDKG = kyber
-	h := &hist{id: sp.id, kind: sp.kind, w: w, rng: rand.New(rand.NewSource(sp.seed)), kyber: kyber}
+	h = &hist{id: sp.id, kind: sp.kind, w: w, rng: rand.New(rand.NewSource(sp.seed)), kyber: kyber}
 	switch sp.kind {
 	case "w-fresh-epoch":
 		h.witnessFreshEpoch()
@@ -427,7 +439,15 @@ func Run(name, prop string) func(outDir string, seed int64, tier string) error {
 		for _, r := range results {
 			rep.Count("history/" + r.spec.kind)
 			if r.cut {
-				rep.Count("history-cut-by-time-guard")
+				rep.Count("history-cut")
+			}
+			if r.unreadable != "" {
+				var tr []string
+				for _, n := range r.cases {
+					tr = append(tr, n.id.name+": "+traceStr(n))
+				}
+				rep.Fail("C08-store-unreadable", "the DKG store can no longer decode a record the process wrote: "+r.unreadable,
+					map[string]interface{}{"history": r.spec.id, "kind": r.spec.kind, "seed": r.spec.seed, "trace": tr})
 			}
 			for _, n := range r.cases {
 				r.w.monitor(rep, prop, r.spec.id, n)
